@@ -65,7 +65,7 @@ def op_boxes(op, sp, gm):
     if sp.is2d:
         nT, nZ = sp.shape
         if name == 'get_trace':
-            return [((a[0], a[0] + 1), (0, nZ))]
+            return [((a[0], a[0] + 1), (0, nZ) if len(a) < 3 else (a[1], a[2]))]
         if name == 'read_subplane':
             return [((a[0], a[1]), (a[2], a[3]))]
         return []
